@@ -22,7 +22,9 @@ RULE = ('fault enumeration: method(5) x session state named by the request(9: '
         '1000 packets, invalid UTF-8, d= form, blank d=, non-numeric / '
         'negative / missing Content-Length, oversize) x transport parameter(3) '
         'x JSONP(3) x server(2), plus the API calls send / disconnect(sid) / '
-        'disconnect() in every session state including an empty server. '
+        'disconnect() in every session state including an empty server; plus '
+        'the same requests / calls issued at seeded points of generated '
+        'session histories under random schedules. '
         'thorough = all cells; quick = seeded sample + all API cells. '
         'distinct = distinct cells; each evaluates completion, status and '
         'gateway-protocol oracles')
@@ -32,7 +34,8 @@ ASSUMPTIONS = ['a long-poll may legitimately take ping_interval+ping_timeout; '
                'WebSocket handshake requests are exempt from the HTTP response '
                'oracle (statement: non-upgrade requests)']
 REQUIRED = ['request_completion', 'status_set', 'gateway_protocol',
-            'api_completion', 'background_exceptions', 'wsgi_validator']
+            'api_completion', 'background_exceptions', 'wsgi_validator',
+            'history_probes']
 SHARD_TIMEOUT = {'quick': 500, 'thorough': 3400}
 
 METHODS = ['GET', 'POST', 'OPTIONS', 'PUT', 'DELETE']
@@ -234,9 +237,119 @@ def run_api(rec, case):
         sim.teardown()
 
 
+def run_hist(rec, case):
+    """Requests of the cross product and API calls issued at seeded points of
+    a generated session history (polls pending or not, mid-handshake,
+    upgraded, clients gone, sessions closed but not reaped)."""
+    from vf import hist
+    rng = gen.mkrng('c15h', case['seed'], case['i'])
+    srv = rng.choice('TA')
+    rec.evaluations += 1
+    sim = scen.make_sim(srv, server_kwargs={
+        'max_http_buffer_size': 1000, 'ping_interval': PI,
+        'ping_timeout': PT}, policy='random', seed=rng.randrange(1 << 30),
+        yield_prob=rng.choice([0.0, 0.3]))
+    R = hist.Runner(sim)
+    probes = []
+
+    def V(key, msg):
+        rec.viol(key, msg + ' | HISTORY server=%s history=%s' % (
+            srv, R.witness(25)), case)
+    try:
+        for _ in range(rng.randint(1, 3)):
+            m = rng.choice(['polling', 'websocket', 'upgrade'])
+            s = R.open('websocket' if m == 'websocket' else 'polling',
+                       autopoll=rng.random() < 0.7, autopong=0)
+            if s.accepted and m == 'upgrade':
+                R.upgrade_start(s, rng.choice(['correct', 'manual']))
+                sim.quiesce()
+        for step in range(rng.randint(4, 16)):
+            live = [x for x in R.S if x.accepted]
+            if not live:
+                break
+            s = rng.choice(live)
+            k = rng.random()
+            if k < 0.15:
+                R.send(s, 'text')
+            elif k < 0.3:
+                uid, data, wire = R.up_payload(s, 'text')
+                if s.mode == 'websocket' and s.ws is not None:
+                    R.ws_send(s, wire)
+                else:
+                    R.post_raw(s, wire)
+            elif k < 0.36:
+                R.post_raw(s, '1') if s.mode == 'polling' else \
+                    R.ws_send(s, '1')
+            elif k < 0.42:
+                R.vanish(s)
+            elif k < 0.47 and s.mode == 'websocket':
+                R.ws_close(s, 'close')
+            elif k < 0.55:
+                R.advance(rng.choice([1, PI, PT, PI + PT]))
+            else:
+                # a probe request / API call at this point of the history
+                method = rng.choice(METHODS)
+                bname = rng.choice(BODIES)
+                body, declared, _ = body_of(bname)
+                q = {'transport': rng.choice(TRANSP), 'EIO': '4'}
+                if rng.random() < 0.8:
+                    q['sid'] = s.sid
+                if rng.random() < 0.2:
+                    q['j'] = rng.choice(['0', 'abc'])
+                kw = {}
+                if method in ('POST', 'PUT'):
+                    kw['body'] = body
+                    if declared not in (None, 'missing'):
+                        kw['declared'] = declared
+                if rng.random() < 0.25:
+                    if rng.random() < 0.5:
+                        t = sim.app_call('send', s.sid, 'probe-data')
+                    else:
+                        t = sim.app_call('disconnect', s.sid)
+                    t.kind_ = 'api'
+                else:
+                    t = sim.request(method, q, {}, **kw)
+                    t.kind_ = 'req'
+                    t.desc = '%s %r body=%s' % (method, q, bname)
+                probes.append(t)
+            if rng.random() < 0.6:
+                sim.quiesce()
+        sim.quiesce()
+        sim.advance(PI + PT + 0.01)
+        rec.count('history_probes', len(probes))
+        for t in probes:
+            if not t.done:
+                sig = scen.hang_signature(sim, t)
+                if sig == 'not-hung':
+                    continue
+                V(sig, '%s issued inside a history did not complete: %s' % (
+                    getattr(t, 'desc', t.info), sig))
+                continue
+            if t.exc is not None:
+                V('request-raises-%s' % type(t.exc).__name__
+                  if t.kind == 'request' else
+                  'api-raises-%s-%s' % (type(t.exc).__name__,
+                                        t.info.get('call')),
+                  '%s raised %r' % (getattr(t, 'desc', t.info), t.exc))
+                continue
+            if t.kind == 'request':
+                if t.code not in (200, 400, 401, 405):
+                    V('status-outside-set', '%s answered %r' % (
+                        t.desc, t.status))
+                if t.proto:
+                    V('gateway-protocol', '%s: %r' % (t.desc, t.proto[:2]))
+        judge_background(rec, sim, V)
+        rec.key('hist/%s/%d/%s' % (srv, len(probes), ''.join(
+            sorted(set(a[0][0] for a in R.log)))))
+    finally:
+        sim.teardown()
+
+
 def dispatch(rec, case):
     if 'api' in case:
         run_api(rec, case)
+    elif 'i' in case:
+        run_hist(rec, case)
     else:
         run_req(rec, case)
 
@@ -256,6 +369,8 @@ def plan(tier, seed):
         for st in API_STATES:
             for srv in SRV:
                 cases.append({'api': [call, st, srv]})
+    for k in range(4000 if tier == 'thorough' else 600):
+        cases.append({'seed': seed, 'i': k})
     rng.shuffle(cases)
     n = 16
     return [{'cases': cases[i::n], 'all': tier == 'thorough'}
